@@ -532,7 +532,7 @@ func filterpath(peer *peer, path, old *table.Path) *table.Path {
 		if ignore {
 			if !path.IsWithdraw && old != nil {
 				oldSource := old.GetSource()
-				if old.IsLocal() || oldSource.Address.String() != peer.ID() && oldSource.AS != peer.AS() {
+				if old.IsLocal() || oldSource.Address.String() != peer.ID() && (oldSource.AS != peer.AS() || oldSource.RouteReflectorClient) {
 					// In this case, we suppose this peer has the same prefix
 					// received from another iBGP peer.
 					// So we withdraw the old best which was injected locally
